@@ -141,4 +141,17 @@ theorem finishRemove_spec (n : Int) (ex : List SEvent) (t : TaskId) (time : Int)
        rs_hyps b => rs_hyps c => exact a _ (b.symm.trans c))
     | (exfalso; simp_all (config := { zetaDelta := true }); rs_hyps a => rs_hyps b => exact a _ b.symm)
 
+
+/-- TASK_FINISHED, for the popped event `ev` (kept in `ex` while it is handled). -/
+theorem handleTaskFinished_spec (n : Int) (ex : List SEvent) (ev : SEvent) (he : ev ∈ ex)
+    (hty : ev.ev.etype = ET.taskFinished) : KeepsR n ex (handleTaskFinished ev) := by
+  have h_fr : ∀ t time, ev.tid = some t → ev.ev.time = time → KeepsR n ex (finishRemove t time) :=
+    fun t time h1 h2 => finishRemove_spec n ex t time ev he hty h1 h2
+  have h_rows := finishRows_spec n ex
+  have h_not := finishNotify_spec n ex
+  mvcgen [handleTaskFinished, h_fr, h_rows, h_not]
+  all_goals first
+    | ev_close
+    | wk_close
+
 end ErdosVerif.Model.Sim
